@@ -149,7 +149,7 @@ def run(ctx, model=None):
     N = 200 if ctx.quick() else 5000
     for k in range(N):
         r = k % 5
-        g = reward_tie_game(rng) if r == 0 else gen.slow_cycle_game(rng) if r == 1 else gen.stopping_game(rng)
+        g = reward_tie_game(rng) if r == 0 else gen.slow_cycle_game(rng) if r == 1 else gen.stopping_game(rng, extra_finals=0.25)
         check_case(ctx, g, model)
         if ctx.time_left() < 0:
             return
